@@ -1,7 +1,7 @@
 (* Boolean predicates used as hypotheses of the C17 theorems (no proofs here):
    tables_ok  - what the proofs need from the generated tables (decided by vm_compute on every run);
    wf_state   - a Properties object holding a type-correct property set for a packet type;
-   spec_state_ok, no_feff_state, maxpkt_small - the specification's value ranges and the two exclusions. *)
+   spec_range_state - every stored value is in the specification's range. *)
 From PahoV Require Import Base.Prelude Codec.StrBytes Codec.Utf8 Codec.VBI Codec.PropSpec Codec.Props5.
 
 Fixpoint nodupz (l : list Z) : bool :=
@@ -22,7 +22,8 @@ Definition name_facts (T : ptables) (p : list Z * Z) : bool :=
      end.
 
 Definition tables_ok (T : ptables) : bool :=
-  forallb (name_facts T) (t_names T)
+  t_each T
+  && forallb (name_facts T) (t_names T)
   && nodupz (map snd (t_names T))
   && forallb (fun e => memz (fst e) (map snd (t_names T))) (t_table T).
 
@@ -51,11 +52,6 @@ Definition body_small (T : ptables) (st : pstate) : bool :=
   match spec_body (canon T st) with Some b => blen b <=? vbi_max | None => false end.
 
 (* ---- value conditions ---- *)
-Definition sval_no_feff (s : sval) : bool :=
-  match s with SStr u => negb (infixb feff u) | SBin _ => true end.
-Definition no_feff (v : pval) : bool :=
-  match v with VInt _ => true | VS s => sval_no_feff s | VPair a b => sval_no_feff a && sval_no_feff b end.
-
 (* what __setattr__ checks for a single value of the property with identifier id *)
 Definition code_range_ok (T : ptables) (id : Z) (v : pval) : bool :=
   match get_name (t_names T) id with
@@ -67,8 +63,4 @@ Definition state_all (f : Z -> pval -> bool) (st : pstate) : bool :=
   forallb (fun e => forallb (f (fst e)) (values_of (snd e))) st.
 
 Definition code_range_state (T : ptables) (st : pstate) : bool := state_all (code_range_ok T) st.
-Definition no_feff_state (st : pstate) : bool := state_all (fun _ => no_feff) st.
 Definition spec_range_state (st : pstate) : bool := state_all spec_in_range st.
-(* exclusion for finding F-C17b: Maximum Packet Size (39) above 268 435 455 *)
-Definition maxpkt_small (st : pstate) : bool :=
-  state_all (fun id v => match v with VInt n => negb (id =? 39) || (n <=? 268435455) | _ => true end) st.
